@@ -133,7 +133,7 @@ CHECKS["C19"] = {
         "a refusal is always an allowed resume outcome; the share of resumes that completed is measured and a batch with none exits 2 (vacuity)",
         "stray files use names that are not one of the temp names resume documents cleaning up",
     ],
-    "expected_probes": ["crashes_injected", "torn_writes", "nested_crashes_injected", "resume_completed", "resume_refused_or_failed", "image_complete_with_manifest", "db_errors_injected", "cancellations_injected", "full_sweeps",
+    "expected_probes": ["crashes_injected", "torn_writes", "nested_crashes_injected", "resume_completed", "resume_refused_or_failed", "image_complete_with_manifest", "db_errors_injected", "cancellations_injected", "partial_cursors_injected", "full_sweeps",
                         "negative_opt_codec", "negative_src_add_node", "negative_stray_file", "negative_frag_flip", "negative_frag_swap"],
     "vacuity_counter": "resume_completed",
 }
@@ -177,5 +177,5 @@ CHECKS["C05"] = {
         "interleaving granularity is the function call (plus the race probe on real threads for finer-grained sharing)",
         "Go's per-iteration map order randomisation is sampled (3 repeated solo runs per query), not controlled",
     ],
-    "expected_probes": ["runs_with_shared_ast", "faulted_calls_returned_error", "maperr", "cancel"],
+    "expected_probes": ["runs_with_shared_ast", "faulted_calls_returned_error", "maperr", "cancel", "deadline", "maptimeout"],
 }
